@@ -152,15 +152,18 @@ def universe(tier, seed, shard, nshards):
 def universe_long(tier, seed, shard, nshards):
     A = univ.alphabet(univ.BASE3, seed)
     idx = 0
-    for r in range(1, 15):
-        for c in range(1, 15):
+    thorough = tier == 'thorough'
+    top = 21 if thorough else 15
+    for r in range(1, top):
+        for c in range(1, top):
             if max(r, c) < 7:
                 continue
             idx += 1
             if idx % nshards != shard:
                 continue
-            for w in (1, 2, 3, 4):
-                for psi in (None, 1, 2, (0, 0, 0, 3), (0, 3, 0, 0), (3, 0, 0, 0), (0, 0, 3, 0), (0, 0, 0, c), (0, r, 0, 0), (r, 0, 0, 0), (0, 0, c, 0)):
+            for w in ((1, 2, 3, 4, 5, 7) if thorough else (1, 2, 3, 4)):
+                for psi in (None, 1, 2, (0, 0, 0, 3), (0, 3, 0, 0), (3, 0, 0, 0), (0, 0, 3, 0), (0, 0, 0, c), (0, r, 0, 0), (r, 0, 0, 0), (0, 0, c, 0)) + \
+                        (((5, 0, 0, 0), (0, 0, 5, 0), (0, 5, 0, 0), (0, 0, 0, 5), (4, 4, 4, 4)) if thorough else ()):
                     if psi is not None:
                         p = oracles.norm_psi(psi)
                         if oracles.psi_degenerate(p, r, c) or max(p[:2]) > r or max(p[2:]) > c:
@@ -214,7 +217,7 @@ def run(ctx):
         bounds={'alphabet': list(A), 'U1': 'all series pairs with lengths 1..%d x window{None,1,2%s} x penalty{None,.5} x max_step{None, 2|a| (separates squared from unsquared comparisons)} x inner{sq,eu} x psi{None,1,2,{0,1,len}^4}' % (4 if ctx.thorough else 3, ',3' if ctx.thorough else ''),
                 'U2': 'lengths 1..3 x max_length_diff{0,1}; user inner-distance object and penalty{2,.25}, max_step 3, window 3 crosses; list/tuple/array.array containers',
                 'U3': 'all shapes up to %dx%d x window None,1..max+1 x psi{None,1,2,%s^4} x catalogue pairs x penalty/max_step on/off' % ((7, 7, '{0,1,2,len}') if ctx.thorough else (5, 5, '{0,1,len}')),
-                'U4': 'long thin bands: every shape up to 14x14 with max >= 7, windows 1..4, 11 psi forms, 3 value pairs',
+                'U4': 'long thin bands: every shape up to %s with max >= 7, windows %s, %d psi forms, 3 value pairs' % (('20x20', '1..5,7', 16) if ctx.thorough else ('14x14', '1..4', 11)),
                 'numpy': 'whole universe twice: NumPy importable, and blocked (sys.modules[numpy]=None, DTAIDISTANCE_TESTWITHOUTNUMPY=1)',
                 'oracle_self_check_cases': n_self},
         assumptions=['reference = min over explicitly enumerated admissible paths; the cell recursion used for speed is compared with the explicit enumeration on %d cases at the start of this run' % n_self,
